@@ -253,7 +253,7 @@ pub struct Components {
 }
 
 pub trait World {
-    type Case: Serialize + DeserializeOwned + Clone;
+    type Case: Serialize + DeserializeOwned + Clone + Sync;
     const NAME: &'static str;
 
     fn generate(rng: &mut Rng, prop: &str, mode: &str, tier: Tier) -> Self::Case;
@@ -268,6 +268,17 @@ pub trait World {
     fn rule(prop: &str, mode: &str) -> String;
 }
 
+/// One execution of `case` on the calling thread.
+fn exec_here<W: World>(case: &W::Case, prop: &str, mode: &str, tier: Tier, keep_log: bool, open: &std::sync::Arc<BTreeSet<String>>) -> Result<Ctx, String> {
+    let mut ctx = Ctx::new(prop, mode, tier, keep_log, open.clone());
+    match catch_unwind(AssertUnwindSafe(|| W::execute(case, &mut ctx))) {
+        Ok(()) => Ok(ctx),
+        Err(_) => Err(format!("harness panic outside a guarded library call: {}", take_panic())),
+    }
+}
+
+/// Execute `case` on the calling thread (worker lanes), or, when this process replays a recorded failure, on a fresh
+/// thread started with the recorded hash keys (see hashseam.rs).
 pub fn run_case<W: World>(
     case: &W::Case,
     prop: &str,
@@ -276,11 +287,43 @@ pub fn run_case<W: World>(
     keep_log: bool,
     open: &std::sync::Arc<BTreeSet<String>>,
 ) -> Result<Ctx, String> {
-    let mut ctx = Ctx::new(prop, mode, tier, keep_log, open.clone());
-    match catch_unwind(AssertUnwindSafe(|| W::execute(case, &mut ctx))) {
-        Ok(()) => Ok(ctx),
-        Err(_) => Err(format!("harness panic outside a guarded library call: {}", take_panic())),
+    match crate::hashseam::replay_keys() {
+        Some(keys) => crate::hashseam::on_thread_with_keys(keys, || run_case_here::<W>(case, prop, mode, tier, keep_log, open))?,
+        None => run_case_here::<W>(case, prop, mode, tier, keep_log, open),
     }
+}
+
+fn run_case_here<W: World>(
+    case: &W::Case,
+    prop: &str,
+    mode: &str,
+    tier: Tier,
+    keep_log: bool,
+    open: &std::sync::Arc<BTreeSet<String>>,
+) -> Result<Ctx, String> {
+    let mut ctx = exec_here::<W>(case, prop, mode, tier, keep_log, open)?;
+    if prop == "C11" {
+        // C11: the same case executed again on the same thread sees other iteration orders in every hash map of the
+        // library (the per-thread keys advance with every map built); the log, which holds the serialised action
+        // of every probe, must be the same
+        let other = exec_here::<W>(case, prop, mode, tier, keep_log, open)?;
+        ctx.stat("hash_orders_compared", 1);
+        if other.log_hash() != ctx.log_hash() {
+            let detail = match (&ctx.log_lines, &other.log_lines) {
+                (Some(la), Some(lb)) => {
+                    let k = la.iter().zip(lb.iter()).position(|(x, y)| x != y).unwrap_or(la.len().min(lb.len()));
+                    let show = |l: &Vec<String>| l.get(k).cloned().unwrap_or_else(|| "<end of log>".to_string());
+                    format!("first differing event #{k}:\n first execution: {}\n second execution: {}", show(la), show(lb))
+                }
+                _ => format!("event-log hash {:016x} then {:016x} (replay with VERIF_TRACE=1 for the events)", ctx.log_hash(), other.log_hash()),
+            };
+            ctx.fail(
+                "differs-under-hash-order",
+                format!("the same case executed twice in a row, under two iteration orders of the library's hash maps, gives different observations; {detail}"),
+            );
+        }
+    }
+    Ok(ctx)
 }
 
 pub fn fails_same<W: World>(
